@@ -15,6 +15,17 @@ type Inner struct {
 	T time.Time
 }
 
+// AnyBox is a structure stored by value inside the interface{} field Any. Its
+// JSON form is what the histories carry (a map with the same keys), so that the
+// model needs no special case: scen.(*Seq).build turns that map into the value.
+type AnyBox struct {
+	// fields in the order encoding/json writes the keys of a map (sorted)
+	Box string `json:"$box"`
+	L   []int
+	N   int32
+	S   string
+}
+
 type Emb struct {
 	E  uint16
 	ES string
